@@ -77,6 +77,23 @@ PreFop == << LetS(n_l, ListE(<< L(IntV(1)), L(IntV(2)), L(IntV(3)) >>)),
              LetS(n_nz, FuncE(<< n_k, n_v >>, [e |-> "select", x |-> S(n_k), dflt |-> << L(Null) >>,
                                               flds |-> << F(n_a, L(BoolV(TRUE))) >>])) >>
 
+(* ---- constraints for annotated lets ---- *)
+RangeA(lo, hi) == [a |-> "range", lo |-> lo, hi |-> hi]
+ShapeA(x) == [a |-> "shape", x |-> x]
+ConE(arms) == [e |-> "con", arms |-> arms]
+NoCons == << >>
+Cons1 == << ConE(<< RangeA(<< L(IntV(0)) >>, << L(IntV(2)) >>) >>),                       \* in 0..2
+            ConE(<< RangeA(<< L(IntV(1)) >>, << >>) >>),                                  \* in 1..
+            ConE(<< RangeA(<< >>, << L(IntV(1)) >>) >>),                                  \* in ..1
+            ConE(<< ShapeA(L(IntV(1))), ShapeA(L(StrV(<< "a" >>))) >>),                   \* 1 | "a"
+            ConE(<< ShapeA(L(StrV(<< "b" >>))), RangeA(<< L(IntV(2)) >>, << L(IntV(3)) >>) >>),   \* "b" | in 2..3
+            L(IntV(0)), L(StrV(<< >>)), L(BoolV(TRUE)),                                   \* examples
+            ConE(<< RangeA(<< S(n_a) >>, << L(IntV(5)) >>) >>),                           \* in a..5
+            ConE(<< RangeA(<< L(StrV(<< "a" >>)) >>, << L(IntV(5)) >>) >>),               \* in "a"..5: not numeric
+            ConE(<< ShapeA(S(n_a)), ShapeA(L(BoolV(FALSE))) >>) >>                        \* a | false
+LitsCon == << IntV(0), IntV(1), IntV(3), StrV(<< "a" >>), BoolV(FALSE) >>
+FamCon == {"lit", "var", "let", "conlet", "badlet"}
+
 (* ---- literal pools ---- *)
 LitsSmall == << IntV(0), IntV(1), IntV(2), BoolV(TRUE), BoolV(FALSE), StrV(<< "a" >>), Null >>
 LitsNum == << IntV(0), IntV(1), IntV(3), IntV(7), FloatV(3, 1), FloatV(1, 2), FloatV(2, 0) >>
